@@ -170,8 +170,11 @@ hwloc_shmem_topology_adopt(hwloc_topology_t *topologyp,
     return -1;
 
   err = read(fd, &header, sizeof(header));
-  if (err != sizeof(header))
+  if (err != sizeof(header)) {
+    if (err >= 0)
+      errno = EINVAL; /* short read: no header at this offset */
     return -1;
+  }
 
   if (header.header_version != HWLOC_SHMEM_HEADER_VERSION
       || header.header_length != header_length
